@@ -230,11 +230,19 @@ def check_rotations(ctx):
             xyz[1] = [0, 0, -2]
             xyz[2] = [-1, 0, 0]
             xyz[3] = [-1, -0.0, 0]
+        if k % 3 == 1:
+            # close to the poles but not on them (polar angle 1e-5 .. 8e-3 rad)
+            e_ = 10.0 ** rng.uniform(-5, np.log10(8e-3))
+            r_ = float(np.abs(xyz).max())
+            xyz[4] = [r_ * np.sin(e_) * np.cos(1.0), r_ * np.sin(e_) * np.sin(1.0), r_ * np.cos(e_) * rng.choice([-1, 1])]
         sph = g.spherical_coordinates(xyz[:, 0], xyz[:, 1], xyz[:, 2])
         ctx.case(("sph", xyz.tobytes()), True)
+        # arccos(z / r) loses digits close to the poles: a rounding error of one ulp in z / r moves theta by 1 / sin(theta) ulps
+        s_true = np.hypot(xyz[:, 0], xyz[:, 1]) / np.sqrt((xyz ** 2).sum(axis=1))
+        cond_ = np.where(s_true > 0, 1.0 + 1.0 / np.where(s_true > 0, s_true, 1.0), 1.0)
         back = np.stack([sph.r * np.sin(sph.theta) * np.cos(sph.phi), sph.r * np.sin(sph.theta) * np.sin(sph.phi), sph.r * np.cos(sph.theta)], axis=1)
         if not ((sph.r >= 0).all() and (sph.theta >= 0).all() and (sph.theta <= np.pi).all() and (np.abs(sph.phi) <= np.pi).all()
-                and near(back, xyz, np.abs(xyz).max(), 64)):
+                and np.all(np.abs(back - xyz) <= (64 * np.finfo(float).eps * np.abs(xyz).max() * cond_)[:, None])):
             ctx.violate("spherical coordinates are out of range or do not invert back", {"op": "spherical", "xyz": xyz.tolist()}, {"kind": "spherical"})
     answers = ctx.drive(lines) if ctx.lean.driver_ok and not ctx.oracle_only else []
     for (val, cj, what), a in zip(checks, answers):
